@@ -94,7 +94,7 @@ MANIFEST = {
         text=("TLC decides it twice: (1) the contract specification KeyMaps.tla (Bijective, InRanges, LookupAgrees, ReleaseLocal, ReuseAfterRelease) is model-checked exhaustively for small constants "
               "to imply the property for every history of accepted answers; (2) transition tables extracted breadth-first from the real key maps (to a fixed point where the state space is finite), "
               "long random traces and circuit-id corpora are walked by TLC with the contract as monitor, every clause evaluated at every step. Bounded: alphabets, tag ranges, subscriber counts and corpora are finite."),
-        technique="TLA+ partial-bijection contract + TLC over extracted transition tables / traces of 13 key-map instances and circuit-id key corpora",
+        technique="TLA+ partial-bijection contract + TLC over extracted transition tables / traces of 16+ key-map instances (VLAN, QinQ, session manager incl. counter jump, state store, subscriber manager, allocation store, DHCP circuit index) and circuit-id key corpora",
         note="trusted: harness numbering of keys and subscribers, reflection-based reads of unexported maps, TLC",
     ),
 }
